@@ -462,7 +462,7 @@ class AbstractExcelInPython(ABC):
 
     def _left(self, text, num_chars):
         if num_chars is None:
-            return text[0]
+            num_chars = 1
         if num_chars < 0:
             return '#ERROR!'
         if not text:
@@ -621,7 +621,7 @@ class AbstractExcelInPython(ABC):
 
     def _right(self, text, num_chars):
         if num_chars is None:
-            return text[len(text) - 1]
+            num_chars = 1
         if num_chars < 0:
             return '#ERROR!'
         if not text:
